@@ -42,10 +42,11 @@ TReset ==
   /\ rot' = [h \in Hosts |-> 0] /\ used' = [h \in Hosts |-> {}]
 
 \* getTCPAddrs returned: the start index is the one the code got (atomic counter: the log
-\* order of concurrent dials need not be the counter order, FreshIndex checks uniqueness)
+\* order of concurrent dials need not be the counter order, and concurrent first resolutions
+\* of a host may each start a counter of their own)
 TAddrs ==
   /\ IsEvent("td.addrs") /\ pc[G] = "new" /\ ResolveOf[host[G]] = "ok"
-  /\ E.b = Len(AddrsOf[host[G]]) /\ E.a \notin used[host[G]]
+  /\ E.b = Len(AddrsOf[host[G]]) /\ E.a >= 1 /\ E.a <= Cardinality(Dials)
   /\ idx' = [idx EXCEPT ![G] = E.a]
   /\ rot' = [rot EXCEPT ![host[G]] = @ + 1] /\ used' = [used EXCEPT ![host[G]] = @ \cup {E.a}]
   /\ pc' = [pc EXCEPT ![G] = "try"]
@@ -117,7 +118,7 @@ TraceNext == \/ TReset \/ TAddrs \/ TResolveErr \/ TTry \/ TExpired \/ TSlotAcq 
 
 TraceSpec == TraceInit /\ [][TraceNext]_<<vars, l>>
 
-TraceInv == ConcBound /\ Rotation /\ FreshIndex /\ Results
+TraceInv == ConcBound /\ Rotation /\ Results
 
 TraceAccepted ==
   LET d == TLCGet("stats").diameter IN
